@@ -576,8 +576,15 @@ class Processor(object):
         else:
             data = coeffs.T
 
+        # np.savetxt omits an empty header, read_coeff expects the line:
+        # the comment prefix is made part of the header
         np.savetxt(
-            file_name, data, delimiter="\t", fmt="%1.16f", header=header
+            file_name,
+            data,
+            delimiter="\t",
+            fmt="%1.16f",
+            header="# " + header,
+            comments="",
         )
 
     def read_coeff(self, file_name, inctime=True):
